@@ -121,7 +121,12 @@ func viewDoc(raw []byte) *vDoc {
 							sb.WriteString(tt.Text)
 						}
 					case k.Is(opc.NsW, "tbl"):
-						table(k, depth+1, fmt.Sprintf("%s/%d/%d", path, ri, ci))
+						// the text of a nested table is part of the cell's text (in brackets, cells separated by '|', rows by '/')
+						var nr []string
+						for _, row := range table(k, depth+1, fmt.Sprintf("%s/%d/%d", path, ri, ci)) {
+							nr = append(nr, strings.Join(row, "|"))
+						}
+						sb.WriteString("[[" + strings.Join(nr, "/") + "]]")
 					}
 				}
 				cells = append(cells, sb.String())
@@ -273,10 +278,16 @@ type c18Model struct {
 	paras    []*c18Para
 	vars     map[string]string
 	loop     bool
+	loopCols   []string // cell texts of the loop row without the each markers
+	loopNested []string // cell texts of the 1x2 table nested in cell 1 of the loop row, if any
 	items    []map[string]interface{}
 	hdr      string // header text pattern (with placeholder) or ""
 	hdrSplit bool
 	image    bool
+}
+
+func c18LoopLit(r *rng.R) string {
+	return []string{"", "", "x ", " y", "№ ", ": "}[r.Intn(6)]
 }
 
 func c18Build(c *core.Ctx, r *rng.R) (*document.Document, *c18Model) {
@@ -374,18 +385,48 @@ func c18Build(c *core.Ctx, r *rng.R) (*document.Document, *c18Model) {
 	if r.Chance(1, 2) {
 		m.loop = true
 		tail := r.Range(0, 2)
-		if t, err := d.AddTable(&document.TableConfig{Rows: 2 + tail, Cols: 2, Width: 6000}); err == nil && t != nil {
+		cols := r.Range(2, 4)
+		m.loopCols = make([]string, cols)
+		m.loopCols[0] = c18LoopLit(r) + "{{k}}"
+		m.loopCols[cols-1] = "{{val}}" + c18LoopLit(r)
+		for cidx := 1; cidx < cols-1; cidx++ {
+			m.loopCols[cidx] = c18LoopLit(r) + fmt.Sprintf("{{o%d}}", cidx) + c18LoopLit(r)
+		}
+		if t, err := d.AddTable(&document.TableConfig{Rows: 2 + tail, Cols: cols, Width: 6000}); err == nil && t != nil {
 			t.SetCellText(0, 0, "⟦loophead⟧ Key")
-			t.SetCellText(0, 1, "Val")
-			t.SetCellText(1, 0, "{{#each rows}}{{k}}")
-			t.SetCellText(1, 1, "{{val}}{{/each}}")
+			t.SetCellText(0, cols-1, "Val")
+			for cidx := 0; cidx < cols; cidx++ {
+				txt := m.loopCols[cidx]
+				if cidx == 0 {
+					txt = "{{#each rows}}" + txt
+				}
+				if cidx == cols-1 {
+					txt += "{{/each}}"
+				}
+				t.SetCellText(1, cidx, txt)
+			}
+			if cols >= 3 && r.Bool() {
+				// a nested table with the item's fields inside a cell of the loop row
+				if nt, err := t.AddNestedTable(1, 1, &document.TableConfig{Rows: 1, Cols: 2, Width: 2000}); err == nil && nt != nil {
+					m.loopNested = []string{"n {{k}}", c18LoopLit(r) + "{{o2}}"}
+					nt.SetCellText(0, 0, m.loopNested[0])
+					nt.SetCellText(0, 1, m.loopNested[1])
+				}
+			}
 			for i := 0; i < tail; i++ {
 				t.SetCellText(2+i, 0, fmt.Sprintf("⟦looptail%d⟧ TOTAL", i))
-				t.SetCellText(2+i, 1, fmt.Sprint(100+i))
+				t.SetCellText(2+i, cols-1, fmt.Sprint(100+i))
 			}
 		}
 		for i, n := 0, r.Range(0, 3); i < n; i++ {
-			m.items = append(m.items, map[string]interface{}{"k": fmt.Sprintf("key%d", i), "val": c18Values[r.Intn(5)]})
+			it := map[string]interface{}{"k": fmt.Sprintf("key%d", i), "val": c18Values[r.Intn(5)]}
+			// optional fields: items of one list need not have the same key set
+			for _, f := range []string{"o1", "o2"} {
+				if r.Chance(3, 5) {
+					it[f] = fmt.Sprintf("%s-of-%d", f, i)
+				}
+			}
+			m.items = append(m.items, it)
 		}
 	}
 	if r.Chance(1, 3) {
@@ -397,9 +438,16 @@ func c18Build(c *core.Ctx, r *rng.R) (*document.Document, *c18Model) {
 		m.paras = append(m.paras, p)
 	}
 	if r.Chance(1, 2) {
-		m.hdr = "⟦hdr⟧ Report {{v0}} - {{v5}} end"
+		m.hdr = "⟦hdr⟧ Report {{v0}}"
+		if r.Bool() {
+			m.hdr += " - {{v5}} end"
+		}
 		d.AddHeader(document.HeaderFooterTypeDefault, m.hdr)
-		d.AddFooter(document.HeaderFooterTypeDefault, "⟦ftr⟧ {{v1}} footer")
+		ftr := "⟦ftr⟧ {{v1}} footer"
+		if r.Chance(1, 3) {
+			ftr += " {{v2}}"
+		}
+		d.AddFooter(document.HeaderFooterTypeDefault, ftr)
 	}
 	if r.Bool() {
 		d.SetPageOrientation(document.OrientationLandscape)
@@ -425,14 +473,34 @@ func c18Case(c *core.Ctx) *core.Result {
 		res.Inconcl = "base document does not serialise: " + err.Error()
 		return res
 	}
-	if c.Case%4 == 3 && m.hdr != "" {
-		// a base document as another producer would write it: the header placeholder split over two runs; opened first
+	if c.Case%2 == 1 && m.hdr != "" {
+		// a base document as another producer would write it: header/footer placeholders split over runs at any position (also between
+		// the two opening or the two closing braces), in one or both parts; the package is opened first
 		p := opc.Read(baseRaw)
-		hb := string(p.Parts["word/header1.xml"])
-		cut := strings.Index(hb, "{{v0}}")
-		if cut > 0 {
-			hb2 := hb[:cut+3] + `</w:t></w:r><w:r><w:rPr><w:b/></w:rPr><w:t xml:space="preserve">` + hb[cut+3:]
-			if raw2, ok := rezip(baseRaw, map[string][]byte{"word/header1.xml": []byte(hb2)}); ok {
+		repl := map[string][]byte{}
+		phRe := regexp.MustCompile(`\{\{\w+\}\}`)
+		for _, part := range []string{"word/header1.xml", "word/footer1.xml"} {
+			hb := string(p.Parts[part])
+			if hb == "" || !r.Chance(2, 3) {
+				continue
+			}
+			locs := phRe.FindAllStringIndex(hb, -1)
+			changed := false
+			for i := len(locs) - 1; i >= 0; i-- { // back to front so that earlier offsets stay valid
+				if !r.Chance(2, 3) {
+					continue
+				}
+				cut := locs[i][0] + r.Range(1, locs[i][1]-locs[i][0]-1)
+				hb = hb[:cut] + `</w:t></w:r><w:r><w:rPr><w:b/></w:rPr><w:t xml:space="preserve">` + hb[cut:]
+				changed = true
+				res.Count(fmt.Sprintf("header_footer_split_at_offset_%d", cut-locs[i][0]), 1)
+			}
+			if changed {
+				repl[part] = []byte(hb)
+			}
+		}
+		if len(repl) > 0 {
+			if raw2, ok := rezip(baseRaw, repl); ok {
 				if d2, err := document.OpenFromMemory(io.NopCloser(bytes.NewReader(raw2))); err == nil && d2 != nil && d2.Body != nil {
 					base = d2
 					start = "opened+split-header"
@@ -607,11 +675,30 @@ func c18Case(c *core.Ctx) *core.Result {
 			res.Count("loop_tables_compared", 1)
 			var want [][]string
 			want = append(want, bt[0])
-			for _, it := range m.items {
-				want = append(want, []string{fmt.Sprint(it["k"]), fmt.Sprint(it["val"])})
-			}
+				subst := func(txt string, it map[string]interface{}) string {
+					return regexp.MustCompile(`\{\{(\w+)\}\}`).ReplaceAllStringFunc(txt, func(mm string) string {
+						if v, ok := it[mm[2:len(mm)-2]]; ok {
+							return xmlCarried(fmt.Sprint(v))
+						}
+						return mm // a field the item does not have: the placeholder stays visible
+					})
+				}
+				for _, it := range m.items {
+					var row []string
+					for cidx, txt := range m.loopCols {
+						cell := subst(txt, it)
+						if cidx == 1 && m.loopNested != nil {
+							cell += "[[" + subst(m.loopNested[0], it) + "|" + subst(m.loopNested[1], it) + "]]"
+						}
+						row = append(row, cell)
+					}
+					want = append(want, row)
+				}
 			want = append(want, bt[2:]...)
 			cls := fmt.Sprintf("loop-table/items=%d/rows-after=%d", min2(len(m.items), 2), min2(len(bt)-2, 1))
+			if m.loopNested != nil {
+				cls += "/nested-table-in-loop-row"
+			}
 			switch {
 			case ot == nil:
 				res.Add(cls+"/table-lost", "the loop table is not in the rendered document", note)
@@ -626,7 +713,7 @@ func c18Case(c *core.Ctx) *core.Result {
 	for name, bt := range bv.hdrText {
 		ot, ok := ov.hdrText[name]
 		cls := "header-footer/single-run"
-		if m.hdrSplit && strings.Contains(name, "header") {
+		if m.hdrSplit {
 			cls = "header-footer/placeholder-split-across-runs"
 		}
 		if !ok {
@@ -724,7 +811,7 @@ func init() {
 	core.Register(&core.Check{
 		ID:    "C18",
 		Level: "exploration",
-		Rule: "base documents built through the API: body paragraphs, table cells and nested-table cells whose text (unique token + literals incl. single braces and CJK + 0-3 placeholders) is cut into 1-4 runs of differing formatting, two thirds of the multi-run paragraphs with a run boundary forced inside a placeholder; paragraph properties, page-break runs, a loop table (header row, {{#each}} row, 0-2 fixed rows, 0-3 items), an image placeholder, header and footer placeholders (one case in four: the package is rewritten so that the header placeholder is split over two runs, then opened), page settings; data for about two thirds of the names incl. XML metacharacters, empty and directive-like values. " +
+		Rule: "base documents built through the API: body paragraphs, table cells and nested-table cells whose text (unique token + literals incl. single braces and CJK + 0-3 placeholders) is cut into 1-4 runs of differing formatting, two thirds of the multi-run paragraphs with a run boundary forced inside a placeholder; paragraph properties, page-break runs, a loop table (header row, {{#each}} row, 0-2 fixed rows, 0-3 items), an image placeholder, header and footer with one or two placeholders each (every second case with a header: the package is rewritten so that header and/or footer placeholders are split over two runs at a random offset, also between the two opening braces, then opened), page settings; data for about two thirds of the names incl. XML metacharacters, empty and directive-like values. " +
 			"Oracle on the saved rendered document, read independently and compared with the saved base document: per paragraph the text after reference substitution, the run formatting of every literal character (value characters are free), w:pPr, w:br count; body child sequence, w:sectPr, loop table rows, header/footer text, picture for the image placeholder, untouched parts byte/canonically equal. Non-trivial: >=2 paragraphs compared; distinct = paragraph texts + data.",
 		Cases:         func(t string) int { return tierN(t, 3000, 120000) },
 		Run:           c18Case,
